@@ -14,6 +14,7 @@
                      V_LEVEL(&g_tab_elem) + 1 == (c)->_type._level)
 #define RECEIVER_TABLE_INV(c) ELEM_INV(c)
 #define EVAL_EXTRA_CLAUSE __CPROVER_ensures((__exc == 0 && __CPROVER_old(g_eval_n) == 1) ==> (V_LEVEL(__CPROVER_return_value) == 0 || V_ISNULL(__CPROVER_return_value)))
+#define ISCONST_PINNED
 #include "prelude.h"
 #include "containers.h"
 #include "ctx_api.h"
@@ -48,6 +49,7 @@ void _ZNSt6vectorIN4bloc5ValueESaIS1_EED1Ev(struct vec_Value *this) { (void)this
 #define IS_TABLE(v) (V_LEVEL(v) > 0 && !V_ISNULL(v))
 struct Value *_ZNK4bloc22MemberCONCATExpression5valueERNS_7ContextE(struct MemberCONCATExpression *this, struct Context *ctx)
 __CPROVER_requires(IS_FRESH(this, sizeof(*this)) && IS_FRESH(ctx, sizeof(*ctx)) && IS_FRESH(this->_base_MemberExpression._exp, sizeof(struct Expression)))
+__CPROVER_requires(INPUT_STATE(g_isconst_answer))
 __CPROVER_requires(INPUT_STATE(g_nargs, VALUE_FIELDS(&g_tab_elem), g_is_varname, g_is_const, g_symid))
 /* node invariant: the only constructor passes BTM_CONCAT (= 1) to MemberExpression (member_concat.h) */
 __CPROVER_requires(this->_base_MemberExpression._builtin == 1)
@@ -61,12 +63,17 @@ PROP(C05) __CPROVER_ensures(g_eval_n <= 2 && (g_eval_n >= 1 ==> g_eval_node[0] =
 ENS_FRAME2
 /* a receiver that is a constant of the program (a string literal in the source) is only read: the result is a new
  * temporary and the constant keeps its content, whatever is appended */
-PROP(C05, C09) __CPROVER_ensures((g_eval_n == 2 && g_isconst_n >= 1 && g_isconst_all && V_IS(RCV, LITERAL)) ==> (V_SAME(O1, A1) && (FRAME_STR(O1, A1, 0))))
-PROP(C05, C09) __CPROVER_ensures((OK && g_eval_n == 2 && g_isconst_n >= 1 && g_isconst_all && V_IS(RCV, LITERAL)) ==> (RET != O1 && RET != O2 && V_IS(RET, LITERAL) && !V_LVALUE(RET)))
+PROP(C05, C09) __CPROVER_ensures((g_eval_n == 2 && g_isconst_answer && V_IS(RCV, LITERAL) && !V_ISNULL(RCV) && V_LVALUE(RCV)) ==> (V_SAME(O1, A1) && (FRAME_STR(O1, A1, 0))))
+PROP(C05, C09) __CPROVER_ensures((OK && g_eval_n == 2 && g_isconst_answer && V_IS(RCV, LITERAL) && !V_ISNULL(RCV) && V_LVALUE(RCV)) ==> (RET != O1 && RET != O2 && V_IS(RET, LITERAL) && !V_LVALUE(RET)))
 /* a non-null table receiver stays uniform and grows by at most one element */
 PROP(C09) __CPROVER_ensures((g_eval_n == 2 && IS_TABLE(RCV)) ==> (ELEM_INV(COLL) && (TAB_SIZE(COLL) == g_eval_size[0] || (OK && TAB_SIZE(COLL) == g_eval_size[0] + 1))))
 /* C02: the call is typed like its receiver, and a successful call returns a value of the receiver's (defined) type */
 PROP(C02) __CPROVER_ensures((OK && g_eval_n >= 1 && V_MAJOR(A1) != NO_TYPE) ==> (V_MAJOR(RET) == V_MAJOR(A1) && V_LEVEL(RET) == V_LEVEL(A1) && (V_MINOR(RET) == V_MINOR(A1) || (V_MAJOR(A1) == ROWTYPE && (V_MINOR(A1) == 0 || (g_eval_n == 2 && V_MINOR(A2) == 0)) /* an opaque tuple declaration on either side */))))
+/* C05 / C14: a receiver that is a constant of the program (a string literal in the source, shared by every run and every clone of the compiled
+ * program) is only read -- whether or not the code asks isConst() */
+PROP(C05, C14) __CPROVER_ensures((g_isconst_answer && g_eval_n >= 1 && V_IS(A1, LITERAL) && !V_ISNULL(A1)) ==> (V_SAME(O1, A1) && (FRAME_STR(O1, A1, 0))))
+/* (a constant node hands out owned storage: proved by the const_* jobs, so V_LVALUE(A1) is part of what 'constant receiver' means) */
+PROP(C05, C14) __CPROVER_ensures((OK && g_isconst_answer && g_eval_n >= 1 && V_IS(A1, LITERAL) && !V_ISNULL(A1) && V_LVALUE(A1)) ==> (RET != O1 && !V_LVALUE(RET)))   /* ... and never handed out as the receiver of a further in-place method */
 ;
 
 #include FNS_C
